@@ -170,7 +170,9 @@ static int is_amiga(const char *filename)
 static int is_macho(const char *filename)
 {
   return check_magic(filename, "\xce" "\xfa" "\xed" "\xfe") ||
-         check_magic(filename, "\xcf" "\xfa" "\xed" "\xfe");
+         check_magic(filename, "\xcf" "\xfa" "\xed" "\xfe") ||
+         check_magic(filename, "\xfe" "\xed" "\xfa" "\xce") ||
+         check_magic(filename, "\xfe" "\xed" "\xfa" "\xcf");
 }
 
 static int is_uf2(const char *filename)
